@@ -56,7 +56,10 @@ func factsAt(b *ssa.BasicBlock) []fact {
 						}
 					}
 				}
+				return
 			}
+			// several incoming edges are consistent with the observed value: keep the phi itself as the fact
+			out = append(out, fact{cond, truth})
 			return
 		}
 		out = append(out, fact{cond, truth})
